@@ -690,6 +690,32 @@ static VF_UNUSED void vf_ledger_report(struct vf_ctx *c)
 	vf_endl(c);
 }
 
+/* between sessions (scanner destroyed, then used again as if fresh) */
+static VF_UNUSED void vf_free_slotmem(struct vf_ctx *c)
+{
+	int i;
+	for (i = 0; i < VF_MAXSLOT; ++i) {
+		if (c->slotmem[i]) {
+			free(c->slotmem[i]);
+			c->slotmem[i] = 0;
+		}
+		c->slot[i] = 0;
+		c->slotsrc[i] = -1;
+	}
+	c->bdepth = 0;
+}
+
+static VF_UNUSED void vf_reset_session(struct vf_ctx *c)
+{
+	int i;
+	c->wrapk = 0;
+	c->more_pending = 0;
+	c->tok_prefix = 0;
+	c->schedi = 0;
+	for (i = 0; i < c->nsrc; ++i)
+		vf_rewind(c, i);
+}
+
 /* ------------------------------------------------------------------ crash hooks */
 static void vf_sig(int sig)
 {
